@@ -206,6 +206,11 @@ impl Prop for C17 {
         if rng.chance(1, 40) {
             c.layout.padding_kb = *rng.pick(&[9u8, 17, 40, 70]);
         }
+        // now and then a text aligned with the readers' buffers: a line whose terminator is the last / first byte of
+        // an 8 / 16 / 32 / 64 KiB buffer, or a text of exactly that length
+        if rng.chance(1, 25) {
+            c.layout.align = Some(crate::model::align::Align { line: rng.below(400) as u16, boundary: *rng.pick(&[0u8, 0, 0, 1, 2, 3]), variant: rng.below(3) as u8 });
+        }
         let mode = rng.below(20);
         let (text, bytes) = bytes_of(&c);
         let len = bytes.len() as u64;
@@ -226,7 +231,7 @@ impl Prop for C17 {
                 _ => Chunk::Rand { max: 1 + rng.below(20) as u32, seed: rng.next() },
             };
         }
-        if c.layout.padding_kb > 0 {
+        if c.layout.padding_kb > 0 || c.layout.align.is_some() {
             if let Chunk::One = c.chunk_r {
                 c.chunk_r = Chunk::Rand { max: 4096, seed: rng.next() };
             }
@@ -422,6 +427,11 @@ impl Prop for C17 {
             n.layout.padding_kb = 0;
             out.push(n);
         }
+        if c.layout.align.is_some() {
+            let mut n = c.clone();
+            n.layout.align = None;
+            out.push(n);
+        }
         if c.corrupt.is_none() {
             for i in 0..c.model.rows.len() {
                 let mut n = c.clone();
@@ -509,7 +519,7 @@ impl Prop for C17 {
     }
 
     fn rule(&self) -> String {
-        "one run = (abstract LP/MIP model with <=6 columns and <=5 rows: E/L/G rows, RHS, RANGES of either sign, integer markers, every BOUNDS type, objective constant, sense absent/inline/own line; layout variant: 3/5-field lines, comments, blank lines, blanks/tabs, number styles, CRLF, section variants; container: plain, flate2 level 0-9, independent stored-block gzip with optional header fields, or a series of 2-4 gzip members cut anywhere in the text; entry point: load_raw_reader / load_zipped_reader on a simulated stream or load_file / load_file_bytes (+ decode) on the simulated disk; schedule: chunking incl. cuts at line ends, inside number tokens, inside the gzip header/trailer; faults: EINTR, short reads, EIO at byte k or call j, open failure, one flipped container bit; or one one-token corruption). Enumerated part: EIO at every byte offset 0..=len of N files; every single flipped bit of the container of M gzip files. distinct = distinct event-log hash; non-trivial = the model has a column, or a fault fired".into()
+        "one run = (abstract LP/MIP model with <=6 columns and <=5 rows: E/L/G rows, RHS, RANGES of either sign, integer markers, every BOUNDS type, objective constant, sense absent/inline/own line; layout variant: 3/5-field lines, comments, a line ending exactly at an 8/16/32/64 KiB boundary or a text of exactly that length, blank lines, blanks/tabs, number styles, CRLF, section variants; container: plain, flate2 level 0-9, independent stored-block gzip with optional header fields, or a series of 2-4 gzip members cut anywhere in the text; entry point: load_raw_reader / load_zipped_reader on a simulated stream or load_file / load_file_bytes (+ decode) on the simulated disk; schedule: chunking incl. cuts at line ends, inside number tokens, inside the gzip header/trailer; faults: EINTR, short reads, EIO at byte k or call j, open failure, one flipped container bit; or one one-token corruption). Enumerated part: EIO at every byte offset 0..=len of N files; every single flipped bit of the container of M gzip files. distinct = distinct event-log hash; non-trivial = the model has a column, or a fault fired".into()
     }
     fn assumptions(&self) -> Vec<String> {
         vec![
